@@ -46,19 +46,9 @@ def patterns(sig, r, beh):
         return {"pattern": "sd-cannot-add-to-dfsd-file"}
     if m["op"] == "VViews" and "DFSD" in sw and "SD" in sw:
         return {"pattern": "sd-cannot-add-to-dfsd-file"}
-    # (f) SD (reading the NDGs of a file without SD structure) misses a DFSD dataset when GR rasters were written around it
-    if m["op"] in ("ListSds", "ListSdsNc", "VViews") and at["args"].get("api", "NC") in ("SD", "NC") and sw and all(x == "DFSD" for x in sw) and len(sw) >= 2 \
-            and sum(1 for (w, il) in rw if w == "GR") >= 3:
-        return {"pattern": "sd-misses-dfsd-dataset-among-gr-rasters"}
     # (c) GR hands out legacy 24-bit images stored line/plane interlaced without converting them
     if m["op"] == "ListRas" and at["args"]["api"] == "GR" and any(w == "DF24" and il != 0 for (w, il) in rw):
         return {"pattern": "gr-reads-legacy-interlaced-24bit-image-unconverted"}
-    # (d) the legacy readers stop at a raster group written by GR
-    if m["op"] == "ListRas" and at["args"]["api"] in ("DFR8", "DF24") and any(w == "GR" for (w, il) in rw):
-        return {"pattern": "legacy-raster-readers-stop-at-gr-written-image"}
-    # (e) after an 8-bit image stored with a palette / RLE by DFR8, the DF24 iteration keeps returning one image
-    if m["op"] == "ListRas" and at["args"]["api"] == "DF24" and r8special:
-        return {"pattern": "df24-iteration-stuck-after-dfr8-image-with-palette"}
     return None
 
 
